@@ -115,11 +115,12 @@ type nnsEngine struct {
 	resolv util.Uint160 // probe calling common.ResolveFSContract
 
 	// swarm knobs
-	sigFaults bool
-	gasCuts   bool
-	deepSub   bool
-	dupSet    bool
-	maxBlock  int
+	sigFaults     bool
+	gasCuts       bool
+	exactInstants bool
+	deepSub       bool
+	dupSet        bool
+	maxBlock      int
 
 	// bookkeeping
 	touched     map[string]bool   // names ever mentioned (read sweep universe)
@@ -164,6 +165,11 @@ func (e *nnsEngine) run() {
 	e.sigFaults = Chance(t, "signerFaults", 75)
 	e.gasCuts = Chance(t, "gasCuts", 60)
 	e.deepSub = Chance(t, "deepSubNames", 50)
+	// C11/C12: in half of the runs blocks may land exactly on an expiration
+	// instant — C10's statement settles the side it belongs to ("available
+	// again from that instant"), so a former owner has no rights then and the
+	// name serves no records; the other half steps over it (see clock)
+	e.exactInstants = Chance(t, "exactExpirationInstants", 50)
 	e.dupSet = Chance(t, "duplicatingSetRecord", 50)
 	e.maxBlock = []int{6, 1, 3}[Pick(t, "maxPerBlock", 3)]
 	shortLife := []int64{2 * 365 * 24 * 3600, 3600, 365 * 24 * 3600}[Pick(t, "shortTLDLife", 3)]
@@ -1019,7 +1025,7 @@ func (e *nnsEngine) touch(name string) {
 // that their rules never hinge on which side the instant itself belongs to.
 func (e *nnsEngine) clock(op nnsOp) uint64 {
 	dt := e.clockRaw(op)
-	if p := e.r.Prop; p == "C11" || p == "C12" {
+	if p := e.r.Prop; (p == "C11" || p == "C12") && !e.exactInstants {
 		now := int64(e.w.Now())
 		for again := true; again; {
 			again = false
@@ -1477,6 +1483,11 @@ func (e *nnsEngine) isO(n *nnsName, signers []Signer) int {
 func (e *nnsEngine) deadNameRule(name string, signers []Signer) string {
 	for s := name; nnsLevel(s) >= 2; s = nnsParent(s) {
 		if n := e.m.get(s); n != nil && e.isO(n, signers) != nnsAuthNo {
+			if e.r.Prop == "C11" {
+				// whoever held an expired registration is not the owner or admin
+				// of anything: the attempt is unauthorised and took effect
+				return "C11/expired-rights-accepted"
+			}
 			return "C10/rights-outlive-expiration"
 		}
 	}
